@@ -394,6 +394,10 @@ func c03replay(c *Ctx, lines []string) {
 			c03history(c, f[2], f[3], unhxl(f[4]), c03parseEvents(f[5]))
 			continue
 		}
+		if len(f) >= 5 && f[0] == "proverseq" {
+			c03proverSeq(c, c03parseChain(f[2]), c03parseChain(f[3]), f[4])
+			continue
+		}
 		if len(f) >= 4 && f[0] == "prover" {
 			c03prover(c, c03parseChain(f[2]), c03parseIdx(f[3]), false)
 			continue
@@ -523,6 +527,89 @@ func c03prover(c *Ctx, ch []c03hdr, idx []int, alsoValidate bool) {
 		c03exec(c, c03case{src: "custom", hdr: "synd:" + hx(ch[i].diff) + ":" + hx(ch[i].extra), number: uint64(i), hash: h.Hash().Bytes(),
 			proof: proofs[j], epochs: ep, roots: newSparse(0), sums: newSparse(0), oracle: "nil", truth: truth})
 	}
+}
+
+// back-to-back provers in ONE process: accumulator A first, then accumulator B; every record of B is proven and verified.
+//
+//	proverseq <consts> <chainA> <chainB> <mode> | ok <roots of B> <proof of B[0],..,proof of B[n-1]> <verdict,..>
+//
+//	mode  plain = prove one record of A, then all of B
+//	      alias = additionally every proof slice BuildProof returned for B is overwritten in place, then all of B is proven again
+//	              (the second round is what is reported)
+//	The specification has no memory: roots, proofs and verdicts of B are those of B alone (model builder/prover; every verdict ok
+//	by C03_built_proof_verifies).
+func c03proverSeq(c *Ctx, chA, chB []c03hdr, mode string) {
+	head := fmt.Sprintf("proverseq %s %s %s %s", c03constField(), c03chainField(chA), c03chainField(chB), mode)
+	var rootsB [][]byte
+	var proofs [][]byte
+	var verdicts []string
+	var err error
+	p, msg := guard(func() {
+		var recsA, recsB [][][]byte
+		if _, recsA, err = c03buildChain(chA); err != nil {
+			return
+		}
+		for _, i := range []int{0, len(chA) - 1} {
+			if _, err = history.BuildProof(*c03headerD(uint64(i), chA[i].diff, chA[i].extra), history.EpochAccumulator{HeaderRecords: recsA[i/8192]}); err != nil {
+				return
+			}
+		}
+		if rootsB, recsB, err = c03buildChain(chB); err != nil {
+			return
+		}
+		rounds := 1
+		if mode == "alias" {
+			rounds = 2
+		}
+		for round := 0; round < rounds; round++ {
+			proofs = nil
+			for i := range chB {
+				var pr history.AccumulatorProof
+				pr, err = history.BuildProof(*c03headerD(uint64(i), chB[i].diff, chB[i].extra), history.EpochAccumulator{HeaderRecords: recsB[i/8192]})
+				if err != nil {
+					return
+				}
+				proofs = append(proofs, c03cat(pr))
+				if mode == "alias" && round == 0 {
+					for _, sib := range pr {
+						for b := range sib {
+							sib[b] = 0xff // the caller owns what it was given
+						}
+					}
+				}
+			}
+		}
+		r32 := [][32]byte{}
+		v := validation.VerifNewHeaderValidator(rootsB, r32, nil, nil)
+		for i := range chB {
+			if e := v.ValidateHeaderAndProof(c03headerD(uint64(i), chB[i].diff, chB[i].extra), proofs[i]); e != nil {
+				verdicts = append(verdicts, "e")
+			} else {
+				verdicts = append(verdicts, "ok")
+			}
+		}
+	})
+	c.Count("proverseq")
+	switch {
+	case p:
+		c.Emit("%s | panic %s", head, msg)
+	case err != nil:
+		c.Emit("%s | err 99", head)
+	default:
+		c.Emit("%s | ok %s %s %s", head, hxl(rootsB), hxl(proofs), strings.Join(verdicts, ","))
+	}
+}
+
+func (g c03gen) proverSeqs() {
+	// a chain and its own extension: both zero padded, same record 0, same (zero) record 8191
+	a := g.chain(2)
+	b := append(append([]c03hdr{}, a...), g.chain(2)...)
+	c03proverSeq(g.c, a, b, "plain")
+	// the same length with one header in the middle replaced; returned slices scribbled on between two rounds
+	a2 := g.chain(3)
+	b2 := append([]c03hdr{}, a2...)
+	b2[1] = g.chain(1)[0]
+	c03proverSeq(g.c, a2, b2, "alias")
 }
 
 // history.BuildHeaderWithProof, and its output through ValidateHeaderWithProof
@@ -1621,6 +1708,7 @@ func runC03(c *Ctx) {
 		g.prover([]int{1, 3, 20})
 	}
 	c03bhwp(c, g.chain(3), 1)
+	g.proverSeqs()
 	g.sequences()
 	if thorough {
 		g.histories(60)
